@@ -413,6 +413,8 @@ class AggregatedFrame(ProtocolDataUnit):
                 raise DecodeError("aggregated PDU length field error in AGF")
             if pdu_size > size - 2:
                 raise DecodeError("aggregated PDU length exceeds the AGF size")
+            if pdu_size >= 2 and (data[offset+2] << 2 | data[offset+3] >> 6) & 15 == 2:
+                raise DecodeError("AGF PDU must not contain another AGF PDU")
             agf_pdu.append(decode(data, offset+2, pdu_size))
             offset, size = offset + 2 + pdu_size, size - 2 - pdu_size
         return agf_pdu
